@@ -178,6 +178,58 @@ def param_graph(cx, kind="derived", holder="explicit", n=2):
     return "ok"
 
 
+class ModTuple(torch.nn.Module):
+    def __init__(self, a):
+        super().__init__()
+        self.a = torch.nn.Parameter(a)
+
+    def forward(self, x, b):
+        return (self.a * x ** 4 + b * x, self.a * b * x * x)
+
+
+class EdTuple(xitorch.EditableModule):
+    def __init__(self, a):
+        self.a = a
+
+    def forward(self, x, b):
+        return (self.a * x ** 4 + b * x, self.a * b * x * x)
+
+    def getparamnames(self, methodname, prefix=""):
+        return [prefix + "a"]
+
+
+def tuple_module(cx, holder="nn", n=2, second=True):
+    """tuple-valued integrand given as a method of an object that holds a differentiable tensor"""
+    a0 = cx.sym("a", (1,), requires_grad=True)
+    b = cx.sym("b", (1,), requires_grad=True)
+    xl = cx.sym("xl", (1,), requires_grad=True)
+    xu = cx.sym("xu", (1,), requires_grad=True)
+    w = cx.sym("w", (2,))
+    if holder == "nn":
+        mod = ModTuple(a0)
+        a = mod.a
+    else:
+        mod = EdTuple(a0)
+        a = a0
+    r = quad(mod.forward, xl, xu, params=(b,), n=n)
+    cx.claim_true("tuple in, tuple out", isinstance(r, (tuple, list)) and len(r) == 2)
+    loss = w[0] * r[0].sum() + w[1] * r[1].sum()
+    ref0 = _rule(n, xl.detach(), xu.detach(), lambda x: a * x ** 4 + b * x)
+    ref1 = _rule(n, xl.detach(), xu.detach(), lambda x: a * b * x * x)
+    lref = w[0] * ref0.sum() + w[1] * ref1.sum()
+    cx.claim_eq("value", loss, lref)
+    g = grads(loss, [a, b], create_graph=second)
+    gr = grads(lref, [a, b], create_graph=second)
+    for nm, x, y in zip(["a (object-held)", "b (explicit)"], g, gr):
+        cx.claim_eq("d/d" + nm, x, y)
+    if second:
+        c1 = sum((0.5 * (i + 1) * gi).sum() for i, gi in enumerate(zero_if_none(g, [a, b])))
+        c2 = sum((0.5 * (i + 1) * gi).sum() for i, gi in enumerate(zero_if_none(gr, [a, b])))
+        for nm, x, y in zip(["a", "b"], grads(c1, [a, b]), grads(c2, [a, b])):
+            cx.claim_eq("d2/d" + nm, x, y)
+    return "ok"
+
+
 def configs(tier):
     cfgs = []
 
@@ -198,6 +250,8 @@ def configs(tier):
         add("param_graph/explicit/%s" % kind, param_graph, kind=kind, holder="explicit")
     add("param_graph/object/derived", param_graph, kind="derived", holder="object")
     add("param_graph/object/duplicate", param_graph, kind="duplicate", holder="object")
+    add("tuple_module/nn", tuple_module, holder="nn")
+    add("tuple_module/editable", tuple_module, holder="editable")
     add("sequence/n3_n2_n3", sequence, n1=3, n2=2)
     add("sequence/n2_n4_n2", sequence, n1=2, n2=4)
     add("infinite/n2", infinite, n=2)
